@@ -398,8 +398,12 @@ class ResNetwork(GeoNetwork):
 
         """
         # a sparse matrix for the admittance values
+        #  (the zero mode of the Laplacian has to be cut off: with the default
+        #  cutoff of 1e-15 its rounding residue often survives and puts a
+        #  multiple of 1e12 of the all-ones matrix into R, which the single
+        #  precision betweenness kernels cannot subtract out again)
         self.sparse_R = sparse.lil_matrix(
-            np.linalg.pinv(self.admittance_lapacian()))
+            np.linalg.pinv(self.admittance_lapacian(), rcond=1e-10))
 
     def get_R(self):
         """Return the pseudo inverse of of the admittance Laplacian
